@@ -206,6 +206,11 @@ func (r FileReplacer) Replace(d data.Data, cl Changelog) (*ast.File, error) {
 		// (SelectorExpr) where only an identifier is allowed (in a variable
 		// declaration name, for example).
 		if give.Type().AssignableTo(v.Type()) {
+			if n, ok := give.Interface().(ast.Node); ok {
+				if err := checkPositions(n); err != nil {
+					return nil, err
+				}
+			}
 			v.Set(give)
 		}
 	}
@@ -222,6 +227,32 @@ func (r FileReplacer) Replace(d data.Data, cl Changelog) (*ast.File, error) {
 
 	err = r.Imports.Cleanup(d, file, newImports)
 	return file, err
+}
+
+// checkPositions reports an error if the position of a node below n cannot
+// be computed.
+//
+// Patches are not type checked, so a replacement can be a tree that go/ast
+// does not expect: for example, an assignment whose left-hand side was a
+// "..." that matched nothing. Pos and End of such nodes panic, and the changes
+// that follow in the same patch, the structural diff and go/printer all ask
+// for them.
+func checkPositions(n ast.Node) (err error) {
+	var cur ast.Node
+	defer func() {
+		if r := recover(); r != nil {
+			err = fmt.Errorf("cannot build replacement: %T is not well-formed: %v", cur, r)
+		}
+	}()
+	ast.Inspect(n, func(n ast.Node) bool {
+		if n != nil {
+			cur = n
+			n.Pos()
+			n.End()
+		}
+		return true
+	})
+	return nil
 }
 
 // parenthesize adds the parentheses that go/printer does not add on its own
